@@ -206,6 +206,7 @@ def decode_segwit_addr(
     witness_version = bip173.bech32_int_map[data[0:1]]
     assert witness_version in range(17), "witness version not in [0, 16]"
     data = data[1:-6]  # discard version byte and checksum
+    assert data, "empty witness program"
     witness_program = bip173.bech32_decode(data)
     return hrp, witness_version, witness_program
 
